@@ -443,8 +443,12 @@ EvTry == IsEv /\ X.e = "try" /\      \* try body catch E in { E has X => h } alw
 (* on both routes and documented in the User Guide; the interpreter's additional stack     *)
 (* listing is a diagnostic and not part of the output)                                     *)
 HaltText == "Unhandled Exception: RuntimeError(??)\n(Aldor error) Halt\n"
+(* The run-time system raises the halt as the exception RuntimeError: enclosing `finally` parts run while it unwinds  *)
+(* (observed: `try f() catch E in { E has Ex0 => ..; true => throw E; never } finally { print << "fin" }` prints the      *)
+(* message of the error, then "fin", then the report).  No handler of the family names RuntimeError, so it reaches the *)
+(* top, where the report is printed and the program fails.                                                              *)
 EvError == IsEv /\ X.e = "error" /\
-  Go([st EXCEPT !.o = st.o \o <<X.msg, "\n", HaltText>>, !.status = "halt"])
+  Go([st EXCEPT !.o = st.o \o <<X.msg, "\n">>, !.c = [k |-> "thr", exn |-> "RuntimeError/Halt", vs |-> <<>>]])
 (* assert(c): c is evaluated; when it is false the run-time system prints where the        *)
 (* assertion stands (unit, line and source text: replaced by "@@" on both sides of the     *)
 (* comparison, the specification does not know the layout of the rendered file), reports   *)
@@ -452,13 +456,13 @@ EvError == IsEv /\ X.e = "error" /\
 (* documented switch -Qdel-assert (on from -Q2) deletes assertions, test included: the     *)
 (* harness sets DELASSERT=1 when it evaluates a program for those levels.                  *)
 DelAssert == "DELASSERT" \in DOMAIN IOEnv /\ IOEnv.DELASSERT = "1"
-AssertText == "Assertion failed at @@\nUnhandled Exception: RuntimeError(??)\n(Aldor error) Assertion failed.\n"
+AssertText == "Unhandled Exception: RuntimeError(??)\n(Aldor error) Assertion failed.\n"
 EvAssert == IsEv /\ X.e = "assert" /\
   Go(IF DelAssert THEN [st EXCEPT !.c = Val(VUnit)]
      ELSE [st EXCEPT !.c = Ev(X.c), !.k = Push(st.k, [f |-> "assert", env |-> st.e])])
 RetAssert == IsVal /\ HasF /\ F.f = "assert" /\
   Go(IF st.c.v.b THEN [st EXCEPT !.c = Val(VUnit), !.e = F.env, !.k = Pop(st.k)]
-     ELSE [st EXCEPT !.o = st.o \o <<AssertText>>, !.status = "halt"])
+     ELSE [st EXCEPT !.o = st.o \o <<"Assertion failed at @@\n">>, !.c = [k |-> "thr", exn |-> "RuntimeError/Assert", vs |-> <<>>]])
 
 (* a value arrives at an operand frame: next operand, or apply              *)
 RetArgsNext == IsVal /\ HasF /\ F.f = "args" /\ F.todo # {} /\
@@ -587,8 +591,10 @@ ThrCatch == Running /\ st.c.k = "thr" /\ HasF /\ F.f = "try" /\
 (* an exception that nobody handles: the run-time system names it and the program fails *)
 ThrTop == Running /\ st.c.k = "thr" /\ ~HasF /\
   \* an exception that carries values is reported with "(??)" after its name (the run-time system does not print them)
-  Go([st EXCEPT !.o = st.o \o <<"Unhandled Exception: ", st.c.exn, IF Len(st.c.vs) > 0 THEN "(??)" ELSE "", "\n">>,
-                !.status = "uncaught"])
+  Go(IF st.c.exn = "RuntimeError/Halt" THEN [st EXCEPT !.o = st.o \o <<HaltText>>, !.status = "halt"]
+     ELSE IF st.c.exn = "RuntimeError/Assert" THEN [st EXCEPT !.o = st.o \o <<AssertText>>, !.status = "halt"]
+     ELSE [st EXCEPT !.o = st.o \o <<"Unhandled Exception: ", st.c.exn, IF Len(st.c.vs) > 0 THEN "(??)" ELSE "", "\n">>,
+                     !.status = "uncaught"])
 
 ---------------------------------------------------------------------------
 (* file level: forms are executed in order                                     *)
